@@ -91,6 +91,20 @@ Theorem C18_history_wf : forall h, wf_history h -> wf_defs (d_run h).
 Proof. exact wf_defs_run. Qed.
 Print Assumptions C18_history_wf.
 
+(** end to end: after ANY history of define_unit / clear_unit_definitions calls (with dict-valued
+    definitions) that leaves acyclic definitions, every tree of the domain gets a unit, and both
+    the stored unit and what [.unit] shows denote the dimension of dimensional analysis on the
+    expanded operands; a warning is issued exactly on a genuine mismatch *)
+Theorem C18_main : forall h, wf_history h -> acyclic (d_run h) ->
+  exists E F, is_expansion (d_run h) E /\
+    forall fuel e, (F <= fuel)%nat -> in_domain fuel (d_run h) E e ->
+      exists u w, unit_of fuel (d_run h) e = Some (u, w) /\
+        (w = false -> forall k, xdim E u k == dspec E e k /\ xdim E (display (d_run h) u) k == dspec E e k) /\
+        (w = true -> u = [] /\ genuine_mismatch E e) /\
+        (genuine_mismatch E e -> w = true).
+Proof. exact C18_main_lemma. Qed.
+Print Assumptions C18_main.
+
 (** non-vacuity: J = N*m is defined BEFORE N = kg*m/s^2, then W = J/s.  The definitions are
     acyclic, form a dict of dicts, [Efuel defs 4] is their expansion; N^2*kg is in the domain and
     gives kg^3*m^2*s^-4; N/kg + m/s^2 (mixed and expanded form) is in the domain, does not warn
